@@ -5,3 +5,4 @@ ASSUMPTIONS = ["faults are injected at every external call outside the function'
 NOT_DECIDED = ["signals arriving inside the finally clause itself"]
 
 from .C04 import u_renderer_frame  # noqa: F401,E402  (size setting restored by _renderer on every exit)
+from .old_draw import *   # noqa: F401,E402  old-API draw / _display_animated
